@@ -221,34 +221,46 @@ def r4_order(c, facts):
         else:
             c.bad(R, 'order:%s<%s' % (a, b), 'resolve(): %s no longer precedes %s (precedence between built-ins, imports and declarations changes)' % (a, b))
     dv = c.anchor(R, 'oal_compiler::resolve::declare_variable')
-    ok = False
-    for e, anc in hir_walk(dv.hir['body']):
-        if e['k'] == 'if' and any(x['k'] == 'mcall' and x['m'].endswith('Env::declare') for x, _ in hir_walk(e['cond'])):
-            if any(x['k'] == 'call' and variant_of(x['f']) == 'Err' for x, _ in hir_walk(e['then'])):
-                ok = True
-    if ok:
-        c.ok(R, {'declare_variable': 'Err when Env::declare returns a previous definition'})
+    if branches_on_result(dv, 'env::Env::declare') and has_kind(dv, 'InvalidIdentifier'):
+        c.ok(R, {'declare_variable': 'Err(InvalidIdentifier) depending on the previous definition returned by Env::declare'})
     else:
         c.bad(R, 'duplicate-not-reported', 'declare_variable no longer reports a duplicate declaration as an error')
     df = c.anchor(R, 'oal_compiler::resolve::define_variable')
-    ok = False
-    for e, anc in hir_walk(df.hir['body']):
-        if e['k'] == 'if' and any(x['k'] == 'mcall' and x['m'].endswith('Env::lookup') for x, _ in hir_walk(e['cond'])) and e['else'] is not None:
-            if any(x['k'] == 'call' and variant_of(x['f']) == 'Err' for x, _ in hir_walk(e['else'])):
-                ok = True
-    if ok:
-        c.ok(R, {'define_variable': 'Err(NotInScope) when lookup fails'})
+    if branches_on_result(df, 'env::Env::lookup') and has_kind(df, 'NotInScope'):
+        c.ok(R, {'define_variable': 'Err(NotInScope) depending on the result of Env::lookup'})
     else:
         c.bad(R, 'unbound-not-reported', 'define_variable no longer reports an unbound identifier as an error')
     # the definition stored on the variable is the one found by lookup
+    didx = MF.defs_index(df)
     stored = False
-    for e, anc in hir_walk(df.hir['body']):
-        if e['k'] == 'mcall' and e['m'].endswith('Core::define'):
+    for b, t in P.call_blocks(df, 'tree::Core::define'):
+        sl = MF.slice_back(df, t['args'][1]['l'], didx) if len(t['args']) > 1 and 'l' in t['args'][1] else {'calls': []}
+        if any(P.callee_matches({'def': n}, ['env::Env::lookup']) for n, _, _ in sl['calls']):
             stored = True
     if stored:
         c.ok(R, {'define_variable': 'stores the looked-up definition on the node (Core::define)'})
     else:
         c.bad(R, 'definition-not-stored', 'define_variable no longer stores the resolved definition on the variable node')
+
+
+def has_kind(fn, variant):
+    for b, blk in fn.blocks():
+        for s in blk['stmts']:
+            if s['s'] == 'assign' and s['rv']['r'] == 'aggr' and s['rv'].get('adt', '').endswith('errors::Kind') and s['rv'].get('variant') == variant:
+                return True
+    return False
+
+
+def branches_on_result(fn, callee):
+    """the result of `callee` (possibly through is_some/is_none/as_ref/discriminant) decides a switch"""
+    idx = MF.defs_index(fn)
+    for b, blk in fn.blocks():
+        sw = blk['term']
+        if sw['t'] == 'switch' and 'l' in sw['discr']:
+            sl = MF.slice_back(fn, sw['discr']['l'], idx)
+            if any(P.callee_matches({'def': n}, [callee]) for n, _, _ in sl['calls']):
+                return True
+    return False
 
 
 def producer_kinds(facts):
